@@ -54,11 +54,18 @@ func (c *EvalCtx) wfLoad(v Val, t types.Type) {
 	if !ok {
 		return
 	}
-	switch t.Underlying().(type) {
+	switch u := t.Underlying().(type) {
 	case *types.Pointer, *types.Map, *types.Chan:
 		c.wf.facts = append(c.wf.facts, c.ex.p.Lt(tm, c.st.heapTop))
 	case *types.Slice:
 		c.wf.facts = append(c.wf.facts, c.ex.p.Lt(c.ex.p.Acc(tm, 0), c.st.heapTop))
+	case *types.Basic:
+		// a value read from memory lies in the range of its type
+		if u.Info()&types.IsInteger != 0 {
+			if r := c.ex.tm.InRange(tm, t, 0); !r.IsTrue() {
+				c.wf.facts = append(c.wf.facts, r)
+			}
+		}
 	}
 }
 
